@@ -35,9 +35,10 @@ def run(ctx):
                     ctx.sample({"base_subj": base["subj"], "base_clip": base["clip"], "generators": json.loads(ln)["gs"], "variant": byf[f]["variant"]})
         for fl_ in r.fails:
             ev = json.loads(lines[fl_["line"] - 1])
-            rec = {"prop": fl_["prop"], "clause": fl_["clause"], "detail": fl_["detail"], "case": {"gs": ev.get("gs"), "line": fl_["line"]}, "event": ev,
+            prop = ctx.prop if fl_["prop"] == "ANY" else fl_["prop"]
+            rec = {"prop": prop, "clause": fl_["clause"], "detail": fl_["detail"], "case": {"gs": ev.get("gs"), "line": fl_["line"], "crash": ev.get("case")}, "event": ev,
                    "harness": {"variant": byf[f]["variant"], "args": byf[f]["args"]}}
-            (ctx.fails if fl_["prop"] == ctx.prop else ctx.other).append(rec)
+            (ctx.fails if prop == ctx.prop else ctx.other).append(rec)
     return core.finish(ctx, "model_checking", RULE, confirm=confirm)
 
 def run_jobs(jobs):
@@ -57,7 +58,7 @@ def replay_rec(rec):
     j = {"variant": rec["harness"]["variant"], "args": rec["harness"]["args"], "out": os.path.join(work, "out.ndjson")}
     run_jobs([j])
     res = core.validate_traces("ReprTrace", "ReprTrace.cfg", [j["out"]])
-    return any(fl["prop"] == "C13" and fl["clause"] == rec["clause"] and fl["line"] == rec["case"]["line"] for _, r in res for fl in r.fails)
+    return any(fl["prop"] in ("C13", "ANY") and fl["clause"] == rec["clause"] and fl["line"] == rec["case"]["line"] for _, r in res for fl in r.fails)
 
 def confirm(rec):
     return replay_rec(rec)
